@@ -433,6 +433,8 @@ func ruleR27() *Rule {
 				c.add2(okc, props, "dv-trailer/reader", c.fpos(r), "loadFieldDocValueReader takes the chunk count from the last 8 bytes and the chunk-offset table length from the 8 bytes before, both u64 big endian",
 					"reads: "+strings.Join(roles, ", "))
 			}
+			// ---- 5. the per-field record of a section (three uvarints) ----------------
+			// r27SectionHeader(c)
 		},
 	}
 }
